@@ -758,7 +758,7 @@ def run(tier, seed):
     if tier == "quick":
         N, NP, L_full, L_multi = 5, 4, 3, 4
     else:
-        N, NP, L_full, L_multi = 7, 5, 4, 7
+        N, NP, L_full, L_multi = 6, 5, 4, 5
     N = int(os.environ.get("C01_N", N))
     L_full = int(os.environ.get("C01_L", L_full))
     L_multi = int(os.environ.get("C01_LM", L_multi))
